@@ -247,6 +247,43 @@ def run(ctx):
     ctx.ob("R13.3", "from_exec_iter.accepts>=2", okp, fe.loc(pan[0][0] if pan else 0),
            "from_exec_iter may refuse (panic) only when the collection holds fewer than two commands; found %d panic site(s), guard edges %s" % (len(pan), small_e))
 
+    # ---- R13.2 (setters) what the caller configures on the pipeline lands in the field the spawn loop reads it from -----------
+    PL = "builder::pipeline::Pipeline"
+    FIELDS = [f_["name"] for f_ in prog.adts[PL]["variants"][0]["fields"]]
+    def setter_census(fname, allowed):
+        f_ = prog.fn(PL + "::" + fname)
+        if f_ is None:
+            ctx.missing("R13.2", "Pipeline::" + fname)
+            return None, None
+        Tf_ = M.Terms(f_)
+        got = {}
+        for fld in FIELDS:
+            for (bb, si, st_) in stores_to_field(f_, fld, PL):
+                if f_.blocks[bb].get("cleanup"):
+                    continue
+                v = Tf_.rvalue(st_["r"]) if si != "term" else ("call", M.callee_str(st_["f"]), tuple(Tf_.operand(a) for a in st_["args"]), bb)
+                got.setdefault(fld, []).append(v)
+        ctx.ob("R13.2", "Pipeline::%s.touches-only-%s" % (fname, "+".join(sorted(allowed))), set(got) == set(allowed), f_.loc(0),
+               "Pipeline::%s stores to %s (must be exactly %s)" % (fname, sorted(got), sorted(allowed)))
+        return f_, got
+    f_, got = setter_census("stdin", ["stdin", "stdin_data"])
+    if f_ is not None:
+        arg = lambda v: M.contains(v, lambda u: u == ("param", 2, f_.local_name(2)))
+        vs = got.get("stdin", [])
+        ok = len(vs) == 2 and any(arg(v) and M.contains(v, lambda u: u[0] == "downcast" and u[2] == "AsRedirection") for v in vs) \
+            and any(v == ("agg", ("adt", "popen::Redirection", "Pipe"), ()) for v in vs)
+        ds = got.get("stdin_data", [])
+        ok = ok and len(ds) == 1 and ds[0][0] == "agg" and ds[0][1][:3] == ("adt", "std::option::Option", "Some") and arg(ds[0]) and M.contains(ds[0], lambda u: u[0] == "downcast" and u[2] == "FeedData")
+        ctx.ob("R13.2", "Pipeline::stdin=redirection|Pipe+data", ok, f_.loc(0), "a Redirection is stored as is; input data sets stdin = Pipe and stdin_data = Some(data)")
+    f_, got = setter_census("stdout", ["stdout"])
+    if f_ is not None:
+        vs = got.get("stdout", [])
+        ctx.ob("R13.2", "Pipeline::stdout=arg", len(vs) == 1 and M.contains(vs[0], lambda u: u == ("param", 2, f_.local_name(2))), f_.loc(0), "self.stdout is set from the argument")
+    f_, got = setter_census("stderr_to", ["stderr_file"])
+    if f_ is not None:
+        vs = got.get("stderr_file", [])
+        ctx.ob("R13.2", "Pipeline::stderr_to=Some(file)", len(vs) == 1 and vs[0] == ("agg", ("adt", "std::option::Option", "Some"), (("param", 2, f_.local_name(2)),)), f_.loc(0), "self.stderr_file = Some(file)")
+
     # ---- R13.4 status of the last stage; single spawn path -------------------------------
     pj = prog.one("builder::pipeline::Pipeline::join")
     Tj = M.Terms(pj)
